@@ -21,9 +21,9 @@ def layers(ctx):
     return [layer_int, layer_istep, layer_driver]
 
 
-def small_problem(rng, name):
+def small_problem(rng, name, model=None):
     """a small periodic problem on which every integrator is stable at the chosen CFL"""
-    model = str(rng.choice(['conv', 'burgers', 'euler']))
+    model = model or str(rng.choice(['conv', 'burgers', 'euler']))
     cfg = cfg1d.rand_config(rng, units=False, model=model, per=True, n=int(rng.integers(4, 9)), smooth=True, meshkind='uni',
                             scheme=['extrapol1'] if model != 'conv' else cfg1d.rand_scheme(rng, ['extrapol1', 'extrapol2', 'extrapol3']))
     if model == 'burgers':
@@ -89,10 +89,10 @@ def oracle(ctx, seeds=None):
     # ---- (2) snapshots and counters over call histories
     for i in range(ctx.n(36, 600)):
         name = ALL[i % len(ALL)]
-        cfg = small_problem(rng, name)
+        cfg = small_problem(rng, name, model='conv' if i % 4 == 2 else None)
         if i % 4 == 2 and cfg['model'] == 'conv':
-            # extreme time scales: bookkeeping must not contain absolute time constants
-            k = int(rng.choice([-50, -40, 30, 45]))
+            # extreme time scales: bookkeeping must not contain absolute time constants (every run sees tiny and huge steps)
+            k = [-50, 30, -40, 45, -60, 20][(i // 4) % 6]
             cfg['a'] = float(np.sign(cfg['a']) * 2.0 ** (-k)); cfg['mesh'] = dict(kind='uni', n=cfg['n'], L=float(2.0 ** int(rng.integers(-12, 3))), x0=0.0)
         ok, b = impl.guarded(cfg1d.build, cfg)
         if not ok:
